@@ -9,7 +9,6 @@ import (
 	"fmt"
 	"math/big"
 	"os"
-	"sort"
 	"strings"
 	"time"
 
@@ -145,6 +144,7 @@ type execState struct {
 	releasedAt  map[string]int // "auc/ns" -> block index of the release transfer
 	statusHist  map[uint64][]int
 	capAtAccept map[string]string
+	paidIn      map[string]*big.Int // "auction|bidder" -> paying coins the bidder's accepted bids and modifications moved into the paying escrow
 	lin         *linRecorder
 	modelOff    bool // model and implementation diverged earlier in this run
 	queryRng    uint64
@@ -315,18 +315,49 @@ func normCalls(cs []Call) []MTransfer {
 
 func trKey(t MTransfer) string { return t.From + ">" + t.To + ":" + t.Amt.String() + t.Denom }
 
+// sameTransfers compares what two transfer lists do to balances: the net change per (address,
+// denomination). The properties speak of what each party pays and receives, not of how many bank calls
+// carry it, so a list that splits, merges or reorders the same payments is the same behaviour
+// (the order of calls is C14's and C17's business and is compared there, implementation against
+// implementation).
 func sameTransfers(a, b []MTransfer) (bool, string) {
-	ka := make([]string, 0, len(a))
-	kb := make([]string, 0, len(b))
-	for _, t := range a {
-		ka = append(ka, trKey(t))
+	net := func(ts []MTransfer) map[string]*big.Int {
+		m := map[string]*big.Int{}
+		add := func(k string, v *big.Int, sign int) {
+			x := m[k]
+			if x == nil {
+				x = new(big.Int)
+				m[k] = x
+			}
+			if sign > 0 {
+				x.Add(x, v)
+			} else {
+				x.Sub(x, v)
+			}
+		}
+		for _, t := range ts {
+			add(t.From+"|"+t.Denom, t.Amt, -1)
+			add(t.To+"|"+t.Denom, t.Amt, +1)
+		}
+		return m
 	}
-	for _, t := range b {
-		kb = append(kb, trKey(t))
+	na, nb := net(a), net(b)
+	same := true
+	for k, v := range na {
+		w := nb[k]
+		if w == nil {
+			w = new(big.Int)
+		}
+		if v.Cmp(w) != 0 {
+			same = false
+		}
 	}
-	sort.Strings(ka)
-	sort.Strings(kb)
-	if strings.Join(ka, "\n") == strings.Join(kb, "\n") {
+	for k, w := range nb {
+		if na[k] == nil && w.Sign() != 0 {
+			same = false
+		}
+	}
+	if same {
 		return true, ""
 	}
 	return false, fmt.Sprintf("model=%v impl=%v", trList(a), trList(b))
@@ -364,7 +395,7 @@ func maxInt(a, b int) int {
 func Execute(s *Schedule, opt ExecOpts) (res *RunResult) {
 	res = &RunResult{Stats: newStats()}
 	e := &execState{s: s, opt: opt, res: res, foreign: map[string]map[string]*big.Int{}, everBids: map[string]SBid{},
-		immut: map[uint64]SAuction{}, releasedAt: map[string]int{}, statusHist: map[uint64][]int{}, capAtAccept: map[string]string{}}
+		immut: map[uint64]SAuction{}, releasedAt: map[string]int{}, statusHist: map[uint64][]int{}, capAtAccept: map[string]string{}, paidIn: map[string]*big.Int{}}
 	defer func() {
 		if r := recover(); r != nil {
 			res.HarnessErr = fmt.Sprintf("harness panic: %v", r)
